@@ -387,6 +387,19 @@ pub fn show_effect(codec: &FixCodec, e: &Effect) -> String {
     }
 }
 
+/// The snapshot without the scratch buffers, for oracles of the form "this
+/// call changed nothing". Scratch buffers are part of the explorer's state
+/// key (a leak through them must be explored) but what a call leaves in them
+/// is not state a property speaks about: it becomes a violation only when a
+/// later call lets it out, and that is judged where it comes out.
+pub fn obs_snapshot(f: &F) -> foca::VerifSnapshot<Id> {
+    let mut s = f.verif_snapshot();
+    s.updates_buf_len = 0;
+    s.updates_buf.clear();
+    s.choice_buf.clear();
+    s
+}
+
 pub fn hash128<T: Hash>(t: &T) -> u128 {
     use std::collections::hash_map::DefaultHasher;
     use std::hash::Hasher;
